@@ -180,6 +180,16 @@ pub fn exprs(tier: Tier) -> Vec<Expr> {
     v.push(Eq(bx(Datatype(bx(Var("y".into())))), bx(Const(ATerm::iri(&format!("{XSD}integer"))))));
     v.push(Lt(bx(Add(bx(Var("y".into())), bx(Const(int(1))))), bx(Const(int(3)))));
     v.push(IsLiteral(bx(Str(bx(Var("x".into()))))));
+    // numeric type promotion (integer -> float -> double), with operands on either side
+    let flt = |l: &str| Const(ATerm::typed(l, &format!("{XSD}float")));
+    let dbl = |l: &str| Const(ATerm::typed(l, &format!("{XSD}double")));
+    for (a, c2) in [(flt("0.1"), dbl("0.1e0")), (flt("16777216"), dbl("16777217e0")), (flt("1.5"), dbl("1.5e0")), (Var("y".into()), dbl("1.0e0")), (Var("y".into()), flt("1.5")), (Const(int(16777217)), flt("16777216"))] {
+        for (l, r) in [(a.clone(), c2.clone()), (c2.clone(), a.clone())] {
+            v.push(Eq(bx(l.clone()), bx(r.clone())));
+            v.push(Neq(bx(l.clone()), bx(r.clone())));
+            v.push(Lt(bx(l.clone()), bx(r.clone())));
+        }
+    }
     if tier == Tier::Quick {
         // a complete slice: every 2nd expression of the depth-1 block, all of depth 2
         let d1 = 3 * (8 * 4 + 9) + 5;
